@@ -72,44 +72,4 @@ MUTANTS = [
          old="            changed |= self_val.merge(other_val);", new="            self_val.merge(other_val);"),
     dict(name="c02-setunion-old-len-late", prop="C02", expect="C02.lenpair", file="lattices/src/set_union.rs",
          old="        let old_len = self.0.len();\n        self.0.extend(other.0);\n        self.0.len() > old_len", new="        self.0.extend(other.0);\n        let old_len = self.0.len();\n        self.0.len() > old_len"),
-    dict(name="c03-withbot-cmp-ignores-bottom", prop="C03", expect="C03.used", file="lattices/src/with_bot.rs",
-         old="            (None, None) => Some(Equal),\n            (None, Some(bot)) if bot.is_bot() => Some(Equal),\n            (Some(bot), None) if bot.is_bot() => Some(Equal),\n", new="            (None, None) => Some(Equal),\n"),
-    dict(name="c05-set-delete-filter", prop="C05", expect="C05.filter", file="lattices/src/set_union_with_tombstones.rs",
-         old="                .into_iter()\n                .filter(|x| !self.tombstones.contains(x)),", new="                .into_iter(),"),
-    dict(name="c05-map-delete-remove", prop="C05", expect="C05.remove", file="lattices/src/map_union_with_tombstones.rs",
-         old="            .extend(other_tombstones.into_iter().inspect(|k| {\n                self.map.remove(k);\n            }));", new="            .extend(other_tombstones.into_iter());"),
-    dict(name="c09-cmonoid-drop-commutativity", prop="C09", expect="C09.conj", file="lattices/src/algebra.rs",
-         old="    monoid(items, f, zero)?;\n    commutativity(items, f)?;\n    Ok(())", new="    monoid(items, f, zero)?;\n    Ok(())"),
-    dict(name="c09-semiring-absorbing-wrong-op", prop="C09", expect="C09.conj", file="lattices/src/algebra.rs",
-         old="    absorbing_element(items, g, zero)?;", new="    absorbing_element(items, f, zero)?;"),
-    dict(name="c09-ring-drop-question-mark", prop="C09", expect="C09.err", file="lattices/src/algebra.rs",
-         old="    semiring(items, f, g, zero.clone(), one)?;\n    inverse(items, f, zero, b)?;\n    Ok(())", new="    semiring(items, f, g, zero.clone(), one)?;\n    let _ = inverse(items, f, zero, b);\n    Ok(())"),
-    dict(name="c42-cluster-ids-unsorted", prop="C42", expect="C42.hashorder", file="hydro_lang/src/compile/deploy.rs",
-         old="        let mut all_clusters_sorted = self.clusters.keys().collect::<Vec<_>>();\n        all_clusters_sorted.sort();", new="        let all_clusters_sorted = self.clusters.keys().collect::<Vec<_>>();"),
-    dict(name="c42-sim-graph-unsorted", prop="C42", expect="C42.hashorder", file="hydro_lang/src/sim/graph.rs",
-         old="    let mut cluster_max_sizes = cluster_max_sizes.into_iter().collect::<Vec<_>>();\n    cluster_max_sizes.sort();", new="    let cluster_max_sizes = cluster_max_sizes.into_iter().collect::<Vec<_>>();"),
-    dict(name="c38-std-hashmap-in-keyed-hook", prop="C38", expect="C38.hashorder", file="hydro_lang/src/sim/runtime.rs",
-         old="        let mut grouped = FxHashMap::default();", new="        let mut grouped = HashMap::new();"),
-    dict(name="c17-skip-enemy-check", prop="C17", expect="C17.guard", file="dfir_lang/src/graph/graph_algorithms.rs",
-         old="            .is_some_and(|enemy_set| enemy_set.contains(&v))\n        {\n            return false;\n        }", new="            .is_some_and(|enemy_set| enemy_set.contains(&v))\n        {\n            debug_assert!(u != v);\n        }"),
-    dict(name="c17-asymmetric-enemies", prop="C17", expect="C17.sym", file="dfir_lang/src/graph/graph_algorithms.rs",
-         old="            enemies.entry(a).unwrap().or_default().insert(b);\n            enemies.entry(b).unwrap().or_default().insert(a);", new="            enemies.entry(a).unwrap().or_default().insert(b);\n            enemies.entry(b).unwrap().or_default();"),
-    dict(name="c17-remap-forgets-u", prop="C17", expect="C17.remap", file="dfir_lang/src/graph/graph_algorithms.rs",
-         old="            debug_assert!(_removed);\n            w_enemies.insert(u);", new="            debug_assert!(_removed);"),
-    dict(name="c18-barrier-not-tick-edge", prop="C18", expect="C18.barrier", file="dfir_lang/src/graph/flat_to_partitioned.rs",
-         old="        barrier_pairs.push((src, dst));\n        tick_edges.insert(edge_id, delay_type);", new="        if src != dst {\n            barrier_pairs.push((src, dst));\n        }\n        tick_edges.insert(edge_id, delay_type);"),
-    dict(name="c18-enemies-drop-access-groups", prop="C18", expect="C18.enemies", file="dfir_lang/src/graph/flat_to_partitioned.rs",
-         old="        .copied()\n        .chain(access_group_pairs.iter().copied())\n        .chain(partitioned_graph", new="        .copied()\n        .chain(partitioned_graph"),
-    dict(name="c18-merge-across-loops", prop="C18", expect="C18.looponly", file="dfir_lang/src/graph/flat_to_partitioned.rs",
-         old="            if partitioned_graph.node_loop(src) != partitioned_graph.node_loop(dst) {\n                continue;\n            }", new="            if partitioned_graph.node_loop(src) != partitioned_graph.node_loop(dst) {\n                progress = progress || false;\n            }"),
-    dict(name="c18-delay-dropped-on-split", prop="C18", expect="C18.mark", file="dfir_lang/src/graph/flat_to_partitioned.rs",
-         old="        if let Some(delay_type) = tick_edges.remove(edge_id) {\n            tick_edges.insert(out_edge_id, delay_type);\n        }", new="        if let Some(delay_type) = tick_edges.remove(edge_id) {\n            let _ = (out_edge_id, delay_type);\n        }"),
-    dict(name="c19-tick-edges-in-preds", prop="C19", expect="C19.preds", file="dfir_lang/src/graph/flat_to_partitioned.rs",
-         old="        if !tick_edges.contains_key(edge_id) {\n            all_preds.entry(dst).unwrap().or_default().push(src);\n        }", new="        let _ = tick_edges.contains_key(edge_id);\n        all_preds.entry(dst).unwrap().or_default().push(src);"),
-    dict(name="c20-new-skipped-field", prop="C20", expect="C20.serde", file="dfir_lang/src/graph/meta_graph.rs",
-         old="    /// What variable name each graph node belongs to (if any). For debugging (graph writing) purposes only.\n", new="    /// What variable name each graph node belongs to (if any). For debugging (graph writing) purposes only.\n    #[serde(skip)]\n"),
-    dict(name="c22-comp-to-comp-connect", prop="C22", expect="C22.color", file="dfir_lang/src/graph/flat_to_partitioned.rs",
-         old="        (Some(Color::Comp), Some(Color::Comp)) => false,", new="        (Some(Color::Comp), Some(Color::Comp)) => true,"),
-    dict(name="c22-zip-single-input", prop="C22", expect="C22.both", file="dfir_lang/src/graph/ops/zip.rs",
-         old="    hard_range_inn: &(2..=2),", new="    hard_range_inn: &(1..=2),"),
 ]
